@@ -13,3 +13,40 @@ fn t1_tokens_ip_distinct() {
     let tb = t.generate_token(b);
     assert!(ta != tb);
 }
+
+fn ref_crc32c(data: &[u8]) -> u32 {
+    let mut crc = 0xFFFF_FFFFu32;
+    let mut i = 0;
+    while i < data.len() {
+        crc ^= data[i] as u32;
+        let mut j = 0;
+        while j < 8 {
+            crc = if crc & 1 != 0 { (crc >> 1) ^ 0x82F6_3B78 } else { crc >> 1 };
+            j += 1;
+        }
+        i += 1;
+    }
+    !crc
+}
+
+#[kani::proof]
+#[kani::stub(std::time::Instant::now, clock::now)]
+#[kani::unwind(25)]
+fn t2_validate_matches_reference() {
+    let mut t = Tokens { prev_secret: kani::any(), curr_secret: kani::any(), last_updated: clock::now() };
+    let a = SocketAddrV4::new(kani::any::<u32>().into(), kani::any());
+    let tok: [u8; 5] = kani::any();
+    let len: usize = kani::any();
+    kani::assume(len <= 5);
+    let mut buf = [0u8; 24];
+    buf[..4].copy_from_slice(&a.ip().octets());
+    buf[4..].copy_from_slice(&t.curr_secret);
+    let c = ref_crc32c(&buf).to_be_bytes();
+    buf[4..].copy_from_slice(&t.prev_secret);
+    let p = ref_crc32c(&buf).to_be_bytes();
+    let got = t.validate(a, &tok[..len]);
+    let expect = len == 4 && (tok[..4] == c || tok[..4] == p);
+    assert!(got == expect);
+    kani::cover!(got);
+    kani::cover!(!got && len == 4);
+}
